@@ -167,6 +167,14 @@ Theorem C09_failed_single_assignment_np o s s' e :
   e <> ValueError -> e <> TypeError -> e <> OverflowError -> s' = s.
 Proof. exact (failed_single_assignment_np o s s' e). Qed.
 
+(* the model's totalisation default (OtherError = "outside the model") is reached by NO operation from a state satisfying the
+   invariant, except item assignments addressed at a name that is not a variable: no statement above holds by virtue of a default *)
+Theorem C09_other_error_only_for_hidden_names o s :
+  Inv s -> snd (np_step o s) = Raise OtherError ->
+  exists name v, assoc name (vars s) = None /\
+    ((exists l, o = SetItem (KLabel name l) v) \/ (exists a b st, o = SetItem (KSlice name a b st) v)).
+Proof. exact (np_other_error_only_for_hidden_names o s). Qed.
+
 (* kept findings (known_findings.d/C09.json), mirrored by the model *)
 Theorem C09_partial_write_refuted :
   exists s o, Inv s /\ single o /\
@@ -212,6 +220,7 @@ Print Assumptions C09_strict_updates_keep_working.
 Print Assumptions C09_whole_series_ignores_strict.
 Print Assumptions C09_add_variable_ignores_strict.
 Print Assumptions C09_failed_single_assignment_np.
+Print Assumptions C09_other_error_only_for_hidden_names.
 Print Assumptions C09_partial_write_refuted.
 Print Assumptions C09_unknown_name_accepted_refuted.
 Print Assumptions C09_strict_values_setter_blocked_refuted.
